@@ -318,7 +318,9 @@ def t_wrappers(repo, specs, orientation, h):
         i1 = first_for(f1)
         pname = f1.args.args[0].arg
         later = [n for st in f1.body[i1:] for n in ast.walk(st) if isinstance(n, ast.Name) and n.id == pname]
-        ctx.oblige("_s_to_anchor-reads-its-index-only-through-the-extracted-digits", not later, None, "frame")
+        if later:
+            raise ShapeMismatch("CONTRACT-SHAPE-MISMATCH %s reads its index again after extracting the digits (line %d): the digit-level wrapper contract does not apply" % (S2A, later[0].lineno))
+        ctx.oblige("_s_to_anchor-reads-its-index-only-through-the-extracted-digits", True, None, "frame")
 
         def digits_of(val):
             frd = Frame(mod1, f1, S2A, {pname: val, f1.args.args[1].arg: h, f1.args.args[2].arg: cls[1], f1.args.args[3].arg: cls[2]})
